@@ -470,6 +470,15 @@ feature('builtin-read-before-class-rebinding',
 feature('while-test-reads-body-binding',
         ['while _o() or {R1:$X}:', '    {B1:$X/assign} = 0', '{R2:$X}'],
         ['while _w(-{d1}) or {R1}:', '    $X = 0; $X__s = {d1}', '{R2}'], binds='$X', c02=True, c03=False)
+feature('while-test-walrus-body-rebinds',
+        ['while ({B1:$X/walrus} := _o()):', '    {B2:$X/assign} = 0', 'else:', '    {R2:$X}', '{R1:$X}'],
+        ['while _id($X := _w(-{d1}), $X__s := {d1}):', '    $X = 0; $X__s = {d2}', 'else:', '    {R2}', '{R1}'], binds='$X', c02=True, c03=True)
+feature('while-test-walrus-body-rebinds-other',
+        ['while ({B1:$X/walrus} := _o()):', '    {B2:$Y/assign} = 0', '    {B3:$X/assign} = {R3:$X}', 'else:', '    {R2:$Y}', '{R1:$X}'],
+        ['while _id($X := _w(-{d1}), $X__s := {d1}):', '    $Y = 0; $Y__s = {d2}', '    $X = {R3}; $X__s = {d3}', 'else:', '    {R2}', '{R1}'], binds='ab', c02=True, c03=True)
+feature('for-else-after-body-rebinds',
+        ['for {B1:$X/for-target} in _it():', '    {B2:$X/assign} = 0', 'else:', '    {R2:$X}', '{R1:$X}'],
+        ['for $X in _it():', '    $X__s = {d1}', '    $X = 0; $X__s = {d2}', 'else:', '    {R2}', '{R1}'], binds='$X', c02=True, c03=True)
 feature('while-test-only-reader',
         ['{B2:$X/assign} = 1', 'while {R1:$X} and _o():', '    {B1:$X/assign} = 0'],
         ['$X = 1; $X__s = {d2}', 'while {R1} and _w(-{d1}):', '    $X = 0; $X__s = {d1}'], binds='$X', c02=True, c03=False)
